@@ -14,7 +14,7 @@ import json
 import random
 
 import lib
-import pool
+import uni_par
 import uni_cases as uc
 
 BATCH = 32
@@ -22,11 +22,11 @@ UNITARY_REASONS = {"Call", "Loop", "Assignment", "Subscript"}
 ACTIONS = ("ChooseContext", "ChooseSites", "CheckSite", "Accept")
 
 
-def spec_table(ctx, cfg):
-    r = ctx.tlc("Unitary", cfg, coverage=True, timeout=1500)
+def spec_table(ctx, cfg, coverage=False):
+    r = ctx.tlc("Unitary", cfg, coverage=coverage, timeout=1500)
     if not r.ok:
         raise lib.Machinery("Unitary.tla: a law of the verdict rule fails on the table (specification error):\n" + r.error)
-    for a in ACTIONS:
+    for a in ACTIONS if coverage else ():
         if sum(r.coverage.get(a, (0, 0))) == 0:
             raise lib.Machinery(f"Unitary.tla: action {a} never taken (vacuous run); coverage={r.coverage}")
     table = collections.OrderedDict()
@@ -46,14 +46,6 @@ def spec_table(ctx, cfg):
         e["verdicts"] = sorted(e["verdicts"])
         e["expect"] = "accept" if e["verdicts"] == ["accept"] else "reject"
     return list(table.values()), r
-
-
-def preload():
-    """Import /repo's guppylang once in the parent so that the forked pool workers share it."""
-    import gp  # noqa: F401
-    import guppylang.std.builtins  # noqa: F401
-    import guppylang.std.debug  # noqa: F401
-    import guppylang.std.quantum  # noqa: F401
 
 
 def quick_sample(entries, seed, per_stratum=3, frac=8):
@@ -78,12 +70,11 @@ def quick_sample(entries, seed, per_stratum=3, frac=8):
 
 
 def observe(entries, seed, validate=False):
-    preload()
     order = list(range(len(entries)))
     random.Random(seed).shuffle(order)  # batch composition (which cases share a module) follows the seed
     jobs = [{"cases": [entries[i]["case"] for i in order[j:j + BATCH]], "seed": seed, "compile": True,
              "validate": validate} for j in range(0, len(order), BATCH)]
-    out = pool.map_jobs(uc.observe_batch, jobs, chunksize=1)
+    out = uni_par.run(uc.observe_batch, jobs, est_seconds_per_job=0.25)
     flat = [r for b in out for r in b]
     obs = [None] * len(entries)
     for i, r in zip(order, flat):
@@ -186,7 +177,7 @@ def report(ctx, findings, seed):
 def run(ctx):
     ctx.level = "model_checking"
     cfg = ctx.pick("Unitary.cfg", "Unitary_thorough.cfg")
-    entries, r = spec_table(ctx, cfg)
+    entries, r = spec_table(ctx, cfg, coverage=not ctx.quick)
     ctx.log(f"TLC: {len(entries)} cases, {r.distinct} states, {r.wall:.1f}s")
     ntable = len(entries)
     if ctx.quick:
